@@ -97,10 +97,19 @@ Wrap64(t) == IF t = <<>> THEN <<>>
              ELSE IF Len(t) <= 64 THEN t \o <<10>>
              ELSE SubSeq(t, 1, 64) \o <<10>> \o Wrap64(SubSeq(t, 65, Len(t)))
 
+(* the same with another end-of-line sequence (RFC 7468 allows CRLF, CR or LF) *)
+RECURSIVE WrapEol(_, _, _)
+WrapEol(t, w, eol) == IF t = <<>> THEN <<>>
+                      ELSE IF Len(t) <= w THEN t \o eol
+                      ELSE SubSeq(t, 1, w) \o eol \o WrapEol(SubSeq(t, w + 1, Len(t)), w, eol)
 Dashes == <<45, 45, 45, 45, 45>>
 (* label as a byte sequence, e.g. "PUBLIC KEY" *)
 PEM(label, body) ==
   Dashes \o <<66, 69, 71, 73, 78, 32>> \o label \o Dashes \o <<10>>
   \o Wrap64(Base64(body))
   \o Dashes \o <<69, 78, 68, 32>> \o label \o Dashes \o <<10>>
+PEMWith(label, body, w, eol, last) ==
+  Dashes \o <<66, 69, 71, 73, 78, 32>> \o label \o Dashes \o eol
+  \o WrapEol(Base64(body), w, eol)
+  \o Dashes \o <<69, 78, 68, 32>> \o label \o Dashes \o last
 =============================================================================
